@@ -240,12 +240,20 @@ func checkC03(h *History, vs []*opView, uses map[string]int) {
 				}
 				continue
 			}
-			if v.keptOpen >= requestDeadline+slack+500*time.Millisecond {
-				if v.cr.PeerGoneAt != 0 && v.cr.PeerGoneAt < v.o.SentAt+requestDeadline+slack {
-					h.S.Fail("C03", "transport-closed-by-proxy", "%s: the proxy closed the transport %v after the query without answering", name, v.cr.PeerGoneAt-v.o.SentAt)
-				} else {
-					h.S.Fail("C03", "no-response", "%s: no response although the transport stayed open %v", name, v.keptOpen)
-				}
+			// how long the client itself kept the transport (it closes after its
+			// last query plus a linger time, whatever the proxy does)
+			clientKept := v.cr.ClosedAt - v.o.SentAt
+			gone := v.cr.PeerGoneAt
+			switch {
+			case gone != 0 && gone <= v.o.SentAt || v.o.Err != "":
+				// sent into a transport that the proxy had closed already
+			case clientKept < requestDeadline+slack+500*time.Millisecond:
+			case gone != 0 && gone < v.o.SentAt+requestDeadline+slack:
+				// the listener's idle time-out (>= 8 s here) cannot be the reason:
+				// the client wrote this query less than the request deadline ago
+				h.S.Fail("C03", "transport-closed-by-proxy", "%s: the proxy closed the transport %v after the query without answering (the client kept it for %v)", name, gone-v.o.SentAt, clientKept)
+			default:
+				h.S.Fail("C03", "no-response", "%s: no response although the transport stayed open %v", name, v.keptOpen)
 			}
 			continue
 		}
